@@ -2,7 +2,7 @@ import ArgoVerif.Model.Barrier
 import Driver.Util
 /- `driver barrier`: validates a projected trace against Model.Barrier.
      first line:  init <num_waiters> <id>:<u|t|e> ...      (actor kinds; unlisted actors are ULTs)
-     then one event per line (call / ret / acq / enq / wake / rel / reinit / obsLock)
+     then one event per line (call / ret / acq / enq / wake / rel / reinit / obsLock / obs / fsamp / fbump / obsF)
    `driver xbarrier`: the same for Model.XBarrier (init <num_waiters>; call a; ret a).
    Nothing is printed for accepted events, `REJECT <n> <line> | state` for the first rejected one (later
    lines are ignored), `END accepted=<n> transitions=<k> [...]` at `end`. -/
@@ -40,9 +40,13 @@ def parseEv (ws : List String) : Option (Ev × Nat) :=
   | ["reinit", n, rc] => do let n ← n.toNat?; let rc ← parseRc rc; pure (.reinit n rc, 0)
   | ["obsLock", v] => do let v ← b v; pure (.obsLock v, 0)
   | ["obs", c, nw] => do let c ← c.toNat?; let nw ← nw.toNat?; pure (.obs c nw, 0)
+  | ["fsamp", a, v] => do let a ← a.toNat?; let v ← v.toNat?; pure (.fsamp a v, a)
+  | ["fbump", a, v] => do let a ← a.toNat?; let v ← v.toNat?; pure (.fbump a v, a)
+  | ["obsF", v] => do let v ← v.toNat?; pure (.obsF v, 0)
   | _ => none
 
-def noActor (ws : List String) : Bool := ws.head! == "reinit" || ws.head! == "obsLock" || ws.head! == "obs"
+def noActor (ws : List String) : Bool :=
+  ws.head! == "reinit" || ws.head! == "obsLock" || ws.head! == "obs" || ws.head! == "obsF"
 
 def step (d : D) (ws : List String) : D × String :=
   if d.dead then (d, "") else
@@ -66,7 +70,7 @@ def step (d : D) (ws : List String) : D × String :=
         ({ d with s := s', n := d.n + 1, seen := seen }, "")
       | none =>
         ({ d with dead := true },
-          s!"REJECT {d.n} {ws} | pc={repr (d.s.pc a)} counter={d.s.counter} nw={d.s.nw} lock={d.s.lock} q={d.s.q} round={d.s.round}")
+          s!"REJECT {d.n} {ws} | pc={repr (d.s.pc a)} counter={d.s.counter} nw={d.s.nw} lock={d.s.lock} q={d.s.q} round={d.s.round} fval={d.s.fval} samp={d.s.samp a} wny={d.s.wny}")
 
 def main : IO Unit :=
   Driver.runModel ({ s := init (fun _ => .ult) 1, n := 0, dead := false, seen := [] } : D) step
